@@ -38,7 +38,7 @@ FLOORS = {"quick": {"sink_acks_checked": 30000, "sink_sequences": 5000, "sender_
                        "faults_applied": 80000, "data_drops_applied": 30000, "ack_drops_applied": 30000, "delays_applied": 40000,
                        "timeouts_seen": 30000, "fast_retransmits_seen": 2000, "lossfree_runs": 60,
                        "exhaustive_spaces": 40, "cc_TCPCubic": 10000, "cc_TCPReno": 10000}}
-KEYS = tuple(FLOORS["quick"].keys()) + ("unusual_config_runs", "sink_long_hole_sequences", "random_pattern_runs", "dup_transmissions", "drained_after_completion", "slow_path_runs", "large_flow_id_or_rational_rtt_runs")
+KEYS = tuple(FLOORS["quick"].keys()) + ("unusual_config_runs", "sink_long_hole_sequences", "random_pattern_runs", "dup_transmissions", "drained_after_completion", "slow_path_runs", "large_flow_id_or_rational_rtt_runs", "sink_prefixes_beyond_4GiB", "tiny_rtt_estimate_runs")
 # floors for the situations added with the later rounds of seeded changes (evidence that they were really exercised)
 FLOORS["quick"].update({'slow_path_runs': 16})
 FLOORS["thorough"].update({'slow_path_runs': 100})
@@ -116,6 +116,15 @@ def sink_part(ctx, stats, bad):
         seq.append((hole * MSS, MSS))
         sink_case(seq, stats, bad)
         stats["sink_long_hole_sequences"] += 1
+    # prefixes of more than 2**32 bytes (sequence numbers are plain numbers, not 32-bit header fields)
+    G = 2 ** 30
+    for base in (3 * G, 4 * G - 3 * MSS):
+        seq = [(0, base)] + [(base + k * MSS, MSS) for k in range(8)]
+        tail = seq[1:]
+        rng.shuffle(tail)
+        seq = [seq[0]] + tail + [rng.choice(tail)]
+        sink_case(seq, stats, bad)
+        stats["sink_prefixes_beyond_4GiB"] += 1
     for _ in range(400):
         n = rng.randint(10, 40)
         seq = []
@@ -346,6 +355,14 @@ def run_shard(ctx):
         sender_case(case, stats, mk_bad(case))
         stats["unusual_config_runs"] += 1
         stats["large_flow_id_or_rational_rtt_runs"] += 1
+        ctx.case_done(case, True)
+    # a tiny initial RTT estimate (sub-nanosecond RTO) and the very first transmission lost: only the timer can recover it
+    for j in range(2 if ctx.tier == "quick" else 16):
+        case = {"kind": "sender", "n": rng.choice([2, 4]), "cc": ["TCPReno", "TCPCubic"][j % 2], "delay": rng.choice([0.05, 0.1]),
+                "rtt0": rng.choice([1e-10, 4e-10]), "data_drops": [0], "ack_drops": []}
+        sender_case(case, stats, mk_bad(case))
+        stats["unusual_config_runs"] += 1
+        stats["tiny_rtt_estimate_runs"] += 1
         ctx.case_done(case, True)
     # very slow loss-free paths: round-trip times of minutes, still below the sender's RTO (a large initial estimate)
     for j in range(4 if ctx.tier == "quick" else 24):
